@@ -356,6 +356,9 @@ func body(c *explore.Chooser) *explore.Case {
 			if st.kind == opMainSame {
 				f := base.clone().files[0]
 				f.rules = append(f.rules, rule{kind: "recording", name: "main:only", expr: "sum(main) by (job)"})
+				// main also edits existing rules of that file: the branch must still be compared with the fork point
+				f.rules[1].expr += " * 2"
+				f.rules[2].labels[0][1] = "changed-on-main"
 				r.Write(f.path, f.render())
 			} else {
 				r.Write("rules/main_only.yml", "groups:\n- name: m\n  rules:\n  - record: main:other\n    expr: up\n")
